@@ -518,7 +518,7 @@ pub const REQUIRED: &[&str] = &[
 pub fn run(cx: &mut Ctx) {
     cx.require(REQUIRED);
     cx.rule = "bounded-exhaustive: archives of 0..=4 cells carrying fixed 'one of everything' annotation patterns x every allocate/deallocate(a,n,ge), truncate(a) with a in 0..=size+5, n in {0,1,2,4,8,12,size,size+4}; all pairs of such operations on archives of <=3 cells; directed near-limit requests; random histories of 5-60 structural/write/delete operations. After EVERY operation the full state (verif_snapshot hook cross-checked with size/read_bytes/read_string/read_pointer/all_labels/pointer_destinations) is compared with the reference model; final states are serialized and read by the reference reader. non-trivial = history in which an annotation moved or was deleted by a structural op; distinct by op-sequence hash".into();
-    let maxcells = if cfg!(miri) { 2 } else { 4 };
+    let maxcells = if cfg!(miri) { 1 } else { 4 };
     // single operations, exhaustive
     for cells in 0..=maxcells {
         for which in 0..3 {
@@ -527,7 +527,7 @@ pub fn run(cx: &mut Ctx) {
                     continue; // endianness does not enter relocation; one pattern in BE is enough
                 }
                 let start = pattern(cells, which, be);
-                for op in struct_ops(cells * 4, false) {
+                for op in struct_ops(cells * 4, cfg!(miri)) {
                     cx.case("single_op", |c| {
                         c.nontrivial(fnv(format!("{}|{}|{}|{:?}", cells, which, be, op).as_bytes()));
                         run_seq(c, &start, &[op.clone()]);
@@ -546,8 +546,8 @@ pub fn run(cx: &mut Ctx) {
     }
     // pairs, exhaustive over the reduced grid
     let pair_cells = if cfg!(miri) { 1 } else { 3 };
-    for cells in 0..=pair_cells {
-        for which in 0..2 {
+    for cells in (if cfg!(miri) { 1 } else { 0 })..=pair_cells {
+        for which in (if cfg!(miri) { 1 } else { 0 })..2 {
             let start = pattern(cells, which, false);
             let first = struct_ops(cells * 4, true);
             for (i, op1) in first.iter().enumerate() {
@@ -584,7 +584,7 @@ pub fn run(cx: &mut Ctx) {
     cx.case("near_limit", |c| {
         for be in [false, true] {
             let start = pattern(3, 1, be);
-            for k in 0..8usize {
+            for k in 0..(if cfg!(miri) { 2usize } else { 8 }) {
                 for a in [0usize, 4, 8] {
                     run_seq(c, &start, &[SOp::Deallocate(a, (usize::MAX - k) & !3, false)]);
                     run_seq(c, &start, &[SOp::Deallocate(a, usize::MAX - k, true)]);
@@ -618,7 +618,7 @@ pub fn run(cx: &mut Ctx) {
                     return;
                 }
             };
-            let len = rng.range(5, 60);
+            let len = if cfg!(miri) { rng.range(3, 12) } else { rng.range(5, 60) };
             let mut hist: Vec<String> = Vec::new();
             let mut h = start.fingerprint();
             let moved0 = c.st.stat_sum.get("ops_that_moved_or_deleted_annotations").copied().unwrap_or(0.0);
